@@ -48,6 +48,7 @@ type evCase struct {
 	genuine bool // two different same-kind votes of one validator in one (round,index) (must be accepted, once)
 	data    staking.EvidenceDoubleSignV5
 	copies  int
+	sibling *staking.EvidenceDoubleSignV5 // genuine only: another real equivocation of the same validator in the same round (other vote kind or round index)
 	future  bool // the evidence is about the round of the block being built (not yet the parent's): it must wait one block
 	due     bool // a then-future evidence that reached its round in this block (already in the pool)
 }
@@ -182,6 +183,14 @@ func chain(c *kit.Ctx, id string, i int) {
 				var posts []staking.EvidenceDoubleSignV5
 				for k := 0; k < ec.copies; k++ {
 					posts = append(posts, ec.data)
+				}
+				if ec.genuine && ec.sibling != nil && r.Intn(2) == 0 {
+					// the same validator equivocated in another vote kind / round index of the same round
+					// too (a key run on two machines): several DIFFERENT evidences about one validator in
+					// one block - it is still penalised once
+					posts = append(posts, *ec.sibling)
+					c.Count("blocks_with_differing_evidences_about_one_validator", 1)
+					sigParts["differing-evidences-one-validator"] = true
 				}
 				for _, cp := range comps {
 					posts = append(posts, cp.data)
@@ -632,6 +641,17 @@ func makeEvidence(run *chaingen.Run, st *state.StateDB, round uint64, proposer c
 		if r.Intn(5) == 0 {
 			ec.data.Signs = append(ec.data.Signs, si(C, sign(C, round, ri)))
 		}
+		// a second, different real equivocation of the same validator in this round
+		sv, sri := vt, ri+1+uint32(r.Intn(2))
+		if vt != vtCert && r.Intn(2) == 0 {
+			// the other of prevote/precommit in the SAME round index (certificate evidence is looked up
+			// in another look-back set: kept to its own kind)
+			sv, sri = vtPrevote+vtPrecommit-vt, ri
+		}
+		var D, E common.Hash
+		r.Read(D[:])
+		r.Read(E[:])
+		ec.sibling = &staking.EvidenceDoubleSignV5{Round: round, RoundIndex: sri, SignerIdx: uint32(idx), VoteType: sv, Signs: []*staking.SignInfo{si(D, sign(D, round, sri)), si(E, sign(E, round, sri))}}
 	}
 	// any evidence may reach the proposer's pool more than once (gossip); a second sighting must be
 	// judged like the first
